@@ -385,7 +385,7 @@ def run(pid, build_replay):
         cases.append((f"co {msg.hex()} {','.join(show(e) for e in exps)} {show_defs(eenv)}", tys, vals, exps, want, WIRE_DEFS, eenv))
     # expected types written with NAMED labels (quoted names may contain any character, commas included): the wire carries the
     # hash, the result is the same value
-    for name in ["a,b", "x,name,unit", ",", "name", "id", "h\u00e9llo", "a\"b", "a b", "0", ""]:
+    for name in ["a,b", "x,name,unit", ",", "name", "id", "h\u00e9llo", "a\"b", "a b", "0", "", "_", "__", "_a"]:
         fid = idl_hash(name)
         others = [i for i in (1, 5) if i != fid]
         for kind in ("variant", "record"):
